@@ -136,6 +136,10 @@ def _faces(tier):
             for ci, c in enumerate(CENTRES):
                 for ph in phases:
                     yield {"fam": "ngon", "n": n, "r": rad, "c": ci, "ph": ph}, _ngon(n, rad, c, ph)
+    # kilometre-scale faces (absolute tolerances in the code show at this scale)
+    for n in (3, 4, 6):
+        for ci in (2, 4, 6, 8, 9, 11):
+            yield {"fam": "tiny", "n": n, "c": ci}, _ngon(n, 0.003, CENTRES[ci], 0.4)
     # lattice faces: corners on a non-aligned patch (distinct latitudes/longitudes)
     base = [(3.0 * i + 0.37 * j + 0.11 * i * j, 2.5 * j + 0.41 * i + 0.07 * j * j) for i in range(4) for j in range(4)]
     places = [(20.0, 30.0), (-178.0, -40.0)] if tier == "quick" else [(20.0, 30.0), (-178.0, -40.0), (-4.0, 60.0), (175.0, 5.0), (100.0, -75.0), (-60.0, 80.0)]
